@@ -29,7 +29,8 @@ def scratch(patch=None):
 
 
 def demo(tree, d):
-    r = subprocess.run(['/venv/bin/python', os.path.join(d, 'demo.py')],
+    r = subprocess.run(['/venv/bin/python',
+                        os.path.abspath(os.path.join(d, 'demo.py'))],
                        env=dict(os.environ, PYTHONPATH=tree),
                        capture_output=True, text=True, timeout=300, cwd=tree)
     return r.returncode, (r.stdout + r.stderr)[-300:]
